@@ -72,6 +72,75 @@ use mio::{
 use prost::{EncodeError, Message};
 use tracing::{error, trace, trace_span};
 
+#[cfg(metrics_verif)]
+/// Verification hooks.
+pub mod verif {
+    use std::sync::atomic::AtomicU64;
+    /// Number of event batches fully processed, per exporter (keyed by the address of its state).
+    static BATCHES_DONE: std::sync::Mutex<Vec<(usize, u64)>> = std::sync::Mutex::new(Vec::new());
+
+    pub(crate) fn batch_done(exporter: usize) {
+        let mut b = BATCHES_DONE.lock().unwrap();
+        match b.iter_mut().find(|e| e.0 == exporter) {
+            Some(e) => e.1 += 1,
+            None => b.push((exporter, 1)),
+        }
+    }
+
+    pub(crate) fn batches_done(exporter: usize) -> u64 {
+        BATCHES_DONE.lock().unwrap().iter().find(|e| e.0 == exporter).map_or(0, |e| e.1)
+    }
+
+    /// Answer the environment gives to one `write` call.
+    #[derive(Clone, Copy, Debug)]
+    pub enum WriteAnswer {
+        /// Perform the write as requested.
+        Full,
+        /// Write at most this many bytes.
+        Short(usize),
+        /// Report `WouldBlock` without writing.
+        WouldBlock,
+    }
+
+    /// Plan of answers, consumed front to back; empty means `Full`.
+    pub static PLAN: std::sync::Mutex<std::collections::VecDeque<WriteAnswer>> =
+        std::sync::Mutex::new(std::collections::VecDeque::new());
+
+    /// Number of write calls seen so far.
+    pub static WRITES: AtomicU64 = AtomicU64::new(0);
+
+    pub(crate) struct FaultyConn<'a>(pub &'a mut mio::net::TcpStream);
+
+    impl std::fmt::Debug for FaultyConn<'_> {
+        fn fmt(&self, f: &mut std::fmt::Formatter<'_>) -> std::fmt::Result {
+            self.0.fmt(f)
+        }
+    }
+    impl std::ops::Deref for FaultyConn<'_> {
+        type Target = mio::net::TcpStream;
+        fn deref(&self) -> &Self::Target {
+            self.0
+        }
+    }
+    impl std::ops::DerefMut for FaultyConn<'_> {
+        fn deref_mut(&mut self) -> &mut Self::Target {
+            self.0
+        }
+    }
+    impl FaultyConn<'_> {
+        pub(crate) fn write(&mut self, buf: &[u8]) -> std::io::Result<usize> {
+            use std::io::Write;
+            WRITES.fetch_add(1, std::sync::atomic::Ordering::SeqCst);
+            let answer = PLAN.lock().unwrap().pop_front().unwrap_or(WriteAnswer::Full);
+            match answer {
+                WriteAnswer::Full => self.0.write(buf),
+                WriteAnswer::Short(k) => self.0.write(&buf[..k.min(buf.len()).max(1)]),
+                WriteAnswer::WouldBlock => Err(std::io::ErrorKind::WouldBlock.into()),
+            }
+        }
+    }
+}
+
 const WAKER: Token = Token(0);
 const LISTENER: Token = Token(1);
 const START_TOKEN: Token = Token(2);
@@ -291,6 +360,25 @@ impl TcpBuilder {
         metrics::set_global_recorder(recorder).map_err(Into::into)
     }
 
+    #[cfg(metrics_verif)]
+    /// Builds the exporter and also returns the bound listen address.
+    pub fn verif_build(self) -> Result<(TcpRecorder, SocketAddr), Error> {
+        let buffer_size = self.buffer_size;
+        let (tx, rx) = match buffer_size {
+            None => unbounded(),
+            Some(size) => bounded(size),
+        };
+        let poll = Poll::new()?;
+        let waker = Waker::new(poll.registry(), WAKER)?;
+        let mut listener = TcpListener::bind(self.listen_addr)?;
+        let addr = listener.local_addr()?;
+        poll.registry().register(&mut listener, LISTENER, Interest::READABLE)?;
+        let state = Arc::new(State::new(waker, tx));
+        let recorder = TcpRecorder { state: state.clone() };
+        thread::spawn(move || run_transport(poll, listener, rx, state, buffer_size));
+        Ok((recorder, addr))
+    }
+
     /// Builds and installs the exporter, but returns the recorder.
     ///
     /// In most cases, users should prefer to use [`TcpBuilder::install`] to create and install
@@ -320,6 +408,19 @@ impl TcpBuilder {
 impl Default for TcpBuilder {
     fn default() -> Self {
         TcpBuilder::new()
+    }
+}
+
+#[cfg(metrics_verif)]
+impl TcpRecorder {
+    /// Wakes the transport thread.
+    pub fn verif_wake(&self) {
+        self.state.wake();
+    }
+
+    /// Number of event batches the transport thread of this exporter has fully processed.
+    pub fn verif_batches_done(&self) -> u64 {
+        verif::batches_done(Arc::as_ptr(&self.state) as usize)
     }
 }
 
@@ -517,6 +618,8 @@ fn run_transport(
                 }
             }
         }
+        #[cfg(metrics_verif)]
+        verif::batch_done(Arc::as_ptr(&state) as usize);
     }
 }
 
@@ -541,6 +644,8 @@ fn drive_connection(
     msgs: &mut VecDeque<Bytes>,
 ) -> bool {
     trace!(?conn, "driving client");
+    #[cfg(metrics_verif)]
+    let conn = &mut verif::FaultyConn(conn);
     loop {
         let mut buf = match wbuf.take() {
             // Send the leftover buffer first, if we have one.
